@@ -30,6 +30,7 @@ SrpB(x)       == <<"B", x>>
 K(code, s, b) == <<"K", code, s, b>>              \* SRP session key
 ProofA(k)     == <<"proofA", k>>
 Blob(x)       == <<"blob", x>>
+WrongLen(kind, t) == <<"wronglen", kind, t>>     \* a value of the wrong length: empty / last byte missing / one byte appended / twice
 
 EncKey(k) == Kdf(k, "Pair-Setup-Encrypt-Salt", "Pair-Setup-Encrypt-Info")
 AccX(k)   == Kdf(k, "Pair-Setup-Accessory-Sign-Salt", "Pair-Setup-Accessory-Sign-Info")
@@ -43,19 +44,23 @@ M5Term(k) == Aead(EncKey(k), "PS-Msg05",
 
 \* ------------------------------------------------------------------ reply spaces
 Heads == {<<"ok", "none">>, <<"wrong", "none">>, <<"ok", "err">>}
-FieldCh == {"absent", "ok", "corrupt"}
+LenKinds == {"len0", "short", "long", "double"}   \* length 0, len-1 (last byte dropped), len+1 (byte appended), 2 x len
+FieldCh == {"absent", "ok", "corrupt"} \cup LenKinds
+StateLen == {"empty", "trailing"}                 \* State item of length 0 / the right step number followed by another byte
 \* cut: 0 none; otherwise keep (cut-1) \div 2 whole items of the canonical wire and, if cut is even, part of the next
 M2Default == [st |-> "ok", err |-> "none", salt |-> "ok", pk |-> "ok", cut |-> 0]
 M2Base  == { [M2Default EXCEPT !.st = h[1], !.err = h[2], !.salt = s, !.pk = p] : h \in Heads, s \in FieldCh, p \in FieldCh }
-M2Space == M2Base \cup { [M2Default EXCEPT !.cut = c] : c \in 1..6 }
+M2Space == M2Base \cup { [M2Default EXCEPT !.cut = c] : c \in 1..6 } \cup { [M2Default EXCEPT !.st = x] : x \in StateLen }
 
 \* suffixN: only the last N bytes of the right proof (front truncation); empty: a Proof item of length 0;
 \* padded: the right proof with a zero byte in front - the same number, written with one more byte: the one
 \* variant that is not the exact proof for which the specification leaves the verdict open
-ProofCh == {"absent", "right", "otherCode", "corrupt", "suffix1", "suffix8", "suffix32", "suffix63", "empty", "padded"}
+\* prefix63 / extended / double: last byte dropped / a byte appended / the proof twice
+ProofCh == {"absent", "right", "otherCode", "corrupt", "suffix1", "suffix8", "suffix32", "suffix63", "empty", "padded",
+            "prefix63", "extended", "double"}
 M4Default == [st |-> "ok", err |-> "none", proof |-> "right", mfi |-> FALSE, cut |-> 0]
 M4Space == { [M4Default EXCEPT !.st = h[1], !.err = h[2], !.proof = p, !.mfi = f] : h \in Heads, p \in ProofCh, f \in BOOLEAN }
-           \cup { [M4Default EXCEPT !.cut = c] : c \in 1..4 }
+           \cup { [M4Default EXCEPT !.cut = c] : c \in 1..4 } \cup { [M4Default EXCEPT !.st = x] : x \in StateLen }
 
 KeyCh    == {"right", "otherK", "ctrlSign", "junk"}
 NonceCh  == {"PS-Msg06", "PS-Msg05"}
@@ -64,7 +69,7 @@ PkCh     == {"absent", "accLT", "otherLT"}
 SignerCh == {"presented", "another"}
 InfoCh   == {"right", "otherId", "otherKey", "ctrlSalt", "otherK", "permuted"}
 M6Default == [st |-> "ok", err |-> "none", enc |-> "sub", key |-> "right", nonce |-> "PS-Msg06", id |-> "AccId", pk |-> "accLT",
-              sigp |-> TRUE, signer |-> "presented", info |-> "right", corrupt |-> "none", cut |-> 0]
+              sigp |-> TRUE, signer |-> "presented", info |-> "right", corrupt |-> "none", alter |-> "flip", cut |-> 0]
 SigSpace == {[sigp |-> FALSE, signer |-> "presented", info |-> "right"]} \cup [sigp : {TRUE}, signer : SignerCh, info : InfoCh]
 EncSpace ==
     { [enc |-> "absent", key |-> "right", nonce |-> "PS-Msg06", id |-> "AccId", pk |-> "accLT", sigp |-> TRUE, signer |-> "presented", info |-> "right"],
@@ -75,7 +80,11 @@ M6Mods == {[corrupt |-> "none", cut |-> 0]}
           \cup { [corrupt |-> c, cut |-> 0] : c \in {"enc", "id", "pk", "sig"} }
           \cup { [corrupt |-> "none", cut |-> c] : c \in 1..4 }
 Mk6(h, e, m) == [st |-> h[1], err |-> h[2], enc |-> e.enc, key |-> e.key, nonce |-> e.nonce, id |-> e.id, pk |-> e.pk,
-                 sigp |-> e.sigp, signer |-> e.signer, info |-> e.info, corrupt |-> m.corrupt, cut |-> m.cut]
+                 sigp |-> e.sigp, signer |-> e.signer, info |-> e.info, corrupt |-> m.corrupt, alter |-> "flip", cut |-> m.cut]
+\* further M6 variants, built on the honest M6 (sealed honestly under the exchange key): one field of the sub-TLV (or
+\* the sealed blob) with a wrong length, for either presented key; a State item of the wrong length
+Extra6 == { [M6Default EXCEPT !.corrupt = c, !.alter = a, !.pk = p] : c \in {"enc", "id", "pk", "sig"}, a \in LenKinds, p \in {"accLT", "otherLT"} }
+          \cup { [M6Default EXCEPT !.st = x] : x \in StateLen }
 Valid6(r) ==
     /\ CASE r.corrupt = "none" -> TRUE
          [] r.corrupt = "enc"  -> r.enc # "absent"
@@ -84,6 +93,9 @@ Valid6(r) ==
          [] r.corrupt = "sig"  -> r.enc = "sub" /\ r.sigp
     /\ r.cut # 0 => (r.cut - 1) \div 2 < (IF r.enc = "absent" THEN 1 ELSE 2) + (IF r.err = "err" THEN 1 ELSE 0)
 InM6Space(r) ==
+  \/ r \in Extra6
+  \/
+    /\ r.alter = "flip"
     /\ <<r.st, r.err>> \in Heads
     /\ [enc |-> r.enc, key |-> r.key, nonce |-> r.nonce, id |-> r.id, pk |-> r.pk, sigp |-> r.sigp, signer |-> r.signer,
         info |-> r.info] \in EncSpace
@@ -96,12 +108,13 @@ H6 == M6Default
 
 \* ------------------------------------------------------------------ descriptions -> wires
 Item(t, v) == [t |-> t, v |-> v]
-Hdr(r, n) == <<Item("state", St(IF r.st = "ok" THEN n ELSE "M1"))>> \o (IF r.err = "err" THEN <<Item("error", Err("unavailable"))>> ELSE << >>)
+Hdr(r, n) == <<Item("state", St(CASE r.st = "ok" -> n [] r.st = "wrong" -> "M1" [] r.st = "empty" -> "zero-length" [] OTHER -> "trailing"))>> \o (IF r.err = "err" THEN <<Item("error", Err("unavailable"))>> ELSE << >>)
 CutItems(r)   == (r.cut - 1) \div 2
 CutPartial(r) == r.cut # 0 /\ r.cut % 2 = 0
 CutTo(r, w)   == IF r.cut = 0 THEN w ELSE SubSeq(w, 1, IF CutItems(r) < Len(w) THEN CutItems(r) ELSE Len(w))
 
-FieldTerm(ch, t) == IF ch = "corrupt" THEN Corrupt(t) ELSE t
+FieldTerm(ch, t) == IF ch = "ok" THEN t ELSE IF ch = "corrupt" THEN Corrupt(t) ELSE WrongLen(ch, t)
+Altered(r, t)    == IF r.alter = "flip" THEN Corrupt(t) ELSE WrongLen(r.alter, t)
 Canon2(r) == Hdr(r, "M2")
              \o (IF r.pk # "absent" THEN <<Item("pk", FieldTerm(r.pk, SrpB("b")))>> ELSE << >>)
              \o (IF r.salt # "absent" THEN <<Item("salt", FieldTerm(r.salt, Salt("s")))>> ELSE << >>)
@@ -114,6 +127,7 @@ ProofTerm(r) == CASE r.proof = "right" -> ProofA(KHonest) [] r.proof = "otherCod
                   [] r.proof = "empty" -> <<"emptyvalue">>
                   [] r.proof = "suffix1" -> Suffix(ProofA(KHonest), 1) [] r.proof = "suffix8" -> Suffix(ProofA(KHonest), 8)
                   [] r.proof = "suffix32" -> Suffix(ProofA(KHonest), 32) [] r.proof = "suffix63" -> Suffix(ProofA(KHonest), 63)
+                  [] r.proof \in {"prefix63", "extended", "double"} -> WrongLen(r.proof, ProofA(KHonest))
                   [] OTHER -> Corrupt(ProofA(KHonest))
 Canon4(r) == Hdr(r, "M4")
              \o (IF r.proof # "absent" THEN <<Item("proof", ProofTerm(r))>> ELSE << >>)
@@ -124,8 +138,8 @@ Other(k)     == IF k = "accLT" THEN "otherLT" ELSE "accLT"
 Presented(r) == IF r.pk = "absent" THEN "accLT" ELSE r.pk
 KeyTerm6(k) == CASE k = "right" -> EncKey(KHonest) [] k = "otherK" -> EncKey(KOther) [] k = "ctrlSign" -> CtrlX(KHonest)
                  [] OTHER -> <<"junk">>
-IdTerm6(r) == IF r.id = "absent" THEN None ELSE IF r.corrupt = "id" THEN Corrupt(Id("AccId")) ELSE Id("AccId")
-PkTerm6(r) == IF r.pk = "absent" THEN None ELSE IF r.corrupt = "pk" THEN Corrupt(LtPub(r.pk)) ELSE LtPub(r.pk)
+IdTerm6(r) == IF r.id = "absent" THEN None ELSE IF r.corrupt = "id" THEN Altered(r, Id("AccId")) ELSE Id("AccId")
+PkTerm6(r) == IF r.pk = "absent" THEN None ELSE IF r.corrupt = "pk" THEN Altered(r, LtPub(r.pk)) ELSE LtPub(r.pk)
 Info6(r) ==
     LET p == Presented(r) IN
     CASE r.info = "right"    -> <<AccX(KHonest), Id("AccId"), LtPub(p)>>
@@ -137,11 +151,11 @@ Info6(r) ==
 SigTerm6(r) ==
     LET signer == IF r.signer = "presented" THEN Presented(r) ELSE Other(Presented(r))
         s == Sig(signer, Info6(r)) IN
-    IF ~r.sigp THEN None ELSE IF r.corrupt = "sig" THEN Corrupt(s) ELSE s
+    IF ~r.sigp THEN None ELSE IF r.corrupt = "sig" THEN Altered(r, s) ELSE s
 EncTerm6(r) ==
     LET base == IF r.enc = "reflect" THEN M5Term(KHonest)
                 ELSE Aead(KeyTerm6(r.key), r.nonce, [id |-> IdTerm6(r), pk |-> PkTerm6(r), sig |-> SigTerm6(r)])
-    IN IF r.corrupt = "enc" THEN Corrupt(base) ELSE base
+    IN IF r.corrupt = "enc" THEN Altered(r, base) ELSE base
 Canon6(r) == Hdr(r, "M6") \o (IF r.enc # "absent" THEN <<Item("enc", EncTerm6(r))>> ELSE << >>)
 Wire6(r) == CutTo(r, Canon6(r))
 
@@ -269,7 +283,8 @@ CtrlNext == \/ ReceiveM2 \/ CheckM2State \/ CheckM2Error \/ CheckM2Fields
             \/ ReceiveM4 \/ CheckM4State \/ CheckM4Error \/ CheckM4Fields \/ CheckProof \/ AccessoryM5
             \/ ReceiveM6 \/ CheckM6State \/ CheckM6Error \/ CheckM6Fields \/ OpenM6 \/ CheckInner \/ CheckSig
 EnvM4 == pc = "srp" /\ \E r4 \in M4Space : SendM3(r4)
-EnvM6 == pc = "sendM5" /\ \E h \in Heads, e \in EncSpace, m \in M6Mods : Valid6(Mk6(h, e, m)) /\ SendM5(Mk6(h, e, m))
+EnvM6 == pc = "sendM5" /\ \/ \E h \in Heads, e \in EncSpace, m \in M6Mods : Valid6(Mk6(h, e, m)) /\ SendM5(Mk6(h, e, m))
+                          \/ \E r \in Extra6 : SendM5(r)
 Padded4 == \E a \in BOOLEAN : CheckProofPadded(a)
 Next == CtrlNext \/ Padded4 \/ EnvM4 \/ EnvM6
 Spec == Init /\ [][Next]_vars
